@@ -14,13 +14,13 @@ import (
 func init() { families["codec6"] = famCodec6 }
 
 type c6Obs struct {
-	entered                            bool
-	service, caller, method, format    string
-	shard, rk, rd                      string
-	remaining                          time.Duration
-	span                               wire.Span
-	arg2, arg3                         []byte
-	readErr                            error
+	entered                         bool
+	service, caller, method, format string
+	shard, rk, rd                   string
+	remaining                       time.Duration
+	span                            wire.Span
+	arg2, arg3                      []byte
+	readErr                         error
 }
 
 type c6Handler struct {
